@@ -33,6 +33,7 @@ type Program struct {
 }
 
 type SpecDB struct {
+	ArgOrders []ArgOrderDecl
 	Effects   []EffectDecl
 	Files     map[string]*SpecFile // by package path
 	Contracts map[string]*FuncContract
@@ -151,6 +152,7 @@ func loadSpecs(pkgs []*packages.Package) (*SpecDB, error) {
 			db.Contracts[c.Key()] = c
 		}
 		db.Effects = append(db.Effects, sf.Effects...)
+		db.ArgOrders = append(db.ArgOrders, sf.ArgOrders...)
 		for _, s := range sf.Specs {
 			if _, dup := db.SpecFuncs[s.Name]; dup {
 				return nil, fmt.Errorf("duplicate spec function %s", s.Name)
